@@ -105,7 +105,9 @@ def compare_with_pins(dump: dict, which: str) -> list[tuple[str, str, dict]]:
         if cv["__api_key__"] != pin["api_key"]:
             out.append(("pins:api_key", f"{which}: {path} api key {cv['__api_key__']}, Kafka says {pin['api_key']}", {"class": path}))
     for (api, t), vs in seen.items():
-        pin = apis[api][t]
+        pin = apis.get(api, {}).get(t)
+        if pin is None:  # reported above as pins:unknown-family (e.g. a package whose derived name changed)
+            continue
         if sorted(vs) != list(range(pin["min"], pin["max"] + 1)):
             out.append(("pins:versions", f"{which}: {api}/{t} versions {sorted(vs)}, Kafka says {pin['min']}..{pin['max']}", {"family": [api, t]}))
     return out
